@@ -323,9 +323,9 @@ def ref_merkle(hashes):
     return hs[0]
 
 
-def random_tx_fields(rng, segwit_ok=True):
-    nin = rng.choice([1, 1, 2, 3])
-    nout = rng.choice([1, 2, 3])
+def random_tx_fields(rng, segwit_ok=True, nin=None, nout=None):
+    nin = nin or rng.choice([1, 1, 2, 3])
+    nout = nout or rng.choice([1, 2, 3])
     ins = []
     wit_any = segwit_ok and rng.random() < 0.35
     for _ in range(nin):
@@ -341,9 +341,12 @@ def tx_hash_legacy(fields) -> bytes:
     return dsha(ref_legacy(fields))
 
 
-def random_block(rng, ntx, segwit_ok=True, bad_root=False):
-    """(block bytes, header bytes, tx bytes list, txids) built with the independent encoders only"""
+def random_block(rng, ntx, segwit_ok=True, bad_root=False, fat=None):
+    """(block bytes, header bytes, tx bytes list, txids) built with the independent encoders only; `fat` = (position, number
+    of inputs, number of outputs) of one transaction whose counts need the 3-byte form of the variable-length integer"""
     txf = [random_tx_fields(rng, segwit_ok) for _ in range(ntx)]
+    if fat:
+        txf[fat[0] % ntx] = random_tx_fields(rng, segwit_ok and fat[3], nin=fat[1], nout=fat[2])
     txids = [tx_hash_legacy(f) for f in txf]
     root = ref_merkle(txids)
     if bad_root:
